@@ -46,13 +46,16 @@ claim('C06', 'Lean 4 theorems on the worker/bounded-channel/coordinator transiti
       TB + "Runtime behaviour the model cannot exhibit: OS scheduling fairness, crossbeam internals (assumed FIFO per channel, select returns a ready channel).",
       "DESIGN.md §6 C06")
 
-claim('C08', 'Lean 4 theorems on the ordered-map insert/drain model with key shape and window comparisons regenerated from the source; printed-order correspondence and field oracle on synthesised wtmp files',
+claim('C08', 'Lean 4 theorems on the ordered-map insert/drain model and on the time-value extraction, with key shape, window comparisons and the 16-layout time-field table regenerated from the source; in-process correspondence of tv_pair_from_buffer; printed-order correspondence and field oracle on synthesised wtmp / pacct / lastlog files',
       "Machine-checked: with the map key regenerated from the source (time value, file offset) the printed order is the stable sort by time value of the non-null, "
       "in-window records - each exactly once, equal times in file order, window inclusive; a proved counter-model shows records are lost when the key lacks the offset (the "
-      "defect that was repaired by commit 6df5067a). Tie: the key shape, prefilter operators and null test are re-read every run; the binary is run on synthesised wtmp files "
-      "(ties, nulls, disorder, every container, windows) and its printed order compared with the model; each line must show the record's own fields. Known finding F12 "
-      "(stray NUL after each record).",
-      TB + "Modelled not verified: FixedStruct::as_bytes rendering and layout detection (tested on the Linux x86_64 utmp layout only).",
+      "defect that was repaired by commit 6df5067a). WHICH value is the record's time is proved over a table regenerated for all 16 record layouts (size, offset_tv, size_tv, the primitive "
+      "type tv_pair_from_buffer reads, the declared type and the computed offset of the struct's time field, re-checked against the source's own 167 layout assertions): the ordering value is the time "
+      "field read with its DECLARED type at its DECLARED offset (C08_tv_types_agree, C08_tv_denotes; unsigned fields stay monotone across 2^31: C08_tv_monotone_unsigned; counter-model "
+      "signed_read_of_unsigned_misorders). Tie: the key shape, prefilter operators, null test and the layout table are re-read every run; the real tv_pair_from_buffer / FixedStruct::new on ~3600 "
+      "random and boundary records of every layout per run; the binary on synthesised wtmp (utmpx), pacct (acct_v3) and lastlog files (ties, nulls, disorder, times across 2^31, every container, "
+      "windows) with its printed order compared with the model; each line must show the record's own fields. Known finding F12 (stray NUL after each record).",
+      TB + "Modelled not verified: FixedStruct::as_bytes rendering and layout detection (score_file); layouts other than Linux utmpx / acct_v3 / lastlog are tied in-process only.",
       "DESIGN.md §6 C08")
 
 claim('C10', 'Lean 4 theorems on the ordered-map insert/drain model with key shape and ts_pass_filters regenerated from the source; printed-order correspondence against an independent evtx-crate dump',
